@@ -104,14 +104,27 @@ def _params(fn):
     return [a.arg for a in fn.args.args if a.arg != 'self']
 
 
+def _int_args(e):
+    return [a for a in e['args'] if isinstance(a, z3.ArithRef)]
+
+
+def _one(events, kind, where, handler=False):
+    xs = [e for e in events if e['kind'] == kind and e['handler'] == handler]
+    if len(xs) != 1:
+        raise HarnessError(f'{where}: expected exactly one {kind} call, found {len(xs)}')
+    return xs[0]
+
+
 def lift():
-    """-> dict of z3 terms and the source snippets they came from."""
+    """Interprets SourceCopier._copy_file_multi_part_main (with the nested per-part closure and _copy_part inlined)
+    with vt/intpy.py and reads the arithmetic off the resulting events; -> dict of z3 terms."""
+    from vt import intpy
     ctext, ltext = loader.read(COPIER), loader.read(LOCAL)
     ctree, ltree = ast.parse(ctext), ast.parse(ltext)
     main = _func(ctree, '_copy_file_multi_part_main', 'SourceCopier')
     part = _func(ctree, '_copy_part', 'SourceCopier')
-    size, P, BUF, i, n = z3.Int('size'), z3.Int('part_size'), z3.Int('BUFFER_SIZE'), z3.Int('i'), z3.Int('n')
-    out = {'vars': {'size': size, 'P': P, 'BUF': BUF, 'i': i, 'n': n}, 'src': {}}
+    size, P, BUF = z3.Int('size'), z3.Int('part_size'), z3.Int('BUFFER_SIZE')
+    out = {'src': {}}
 
     # BUFFER_SIZE constant
     buf_val = None
@@ -124,157 +137,75 @@ def lift():
         raise HarnessError('Copier.BUFFER_SIZE not found')
     out['BUFFER_SIZE'] = buf_val
 
-    # ---- _copy_file_multi_part_main, statement by statement
-    env = {}
-    single_guard = None
-    f_def = None
-    ev = Ev(env)
-    for st in main.body:
-        if isinstance(st, ast.Assign) and len(st.targets) == 1:
-            tgt, val = st.targets[0], st.value
-            if isinstance(tgt, ast.Name) and tgt.id == 'size':
-                ev.env['size'] = size
-            elif isinstance(tgt, ast.Name) and tgt.id == 'part_size':
-                if not _calls(val, 'copy_part_size'):
-                    raise HarnessError('part_size is no longer copy_part_size(destfile)')
-                ev.env['part_size'] = P
-            elif isinstance(tgt, ast.Tuple) and isinstance(val, ast.Call) and getattr(val.func, 'id', '') == 'divmod':
-                a, c = ev.e(val.args[0]), ev.e(val.args[1])
-                names = [t.id for t in tgt.elts]
-                ev.env[names[0]], ev.env[names[1]] = a / c, a % c
-                out['src']['divmod'] = ast.unparse(st)
-            else:
-                raise HarnessError(f'unexpected assignment {ast.unparse(st)}')
-        elif isinstance(st, ast.If):
-            test = ev.e(st.test)
-            ends_in_return = isinstance(st.body[-1], ast.Return)
-            if ends_in_return and single_guard is None:
-                single_guard = ev.b(test)
-                cf = _calls(st, 'retry_transient_errors')
-                if not cf or ast.unparse(cf[0].args[0]) != 'self._copy_file':
-                    raise HarnessError('single-part branch no longer calls _copy_file')
-                out['single_part_args'] = [ast.unparse(a) for a in cf[0].args[1:]]
-                out['src']['single'] = ast.unparse(st.test)
-            elif len(st.body) == 1 and isinstance(st.body[0], ast.AugAssign) and not st.orelse:
-                aug = st.body[0]
-                if not isinstance(aug.op, ast.Add):
-                    raise HarnessError(f'unexpected {ast.unparse(st)}')
-                ev.env[aug.target.id] = z3.If(ev.b(test), ev.env[aug.target.id] + ev.e(aug.value), ev.env[aug.target.id])
-                out['src']['roundup'] = ast.unparse(st)
-            else:
-                raise HarnessError(f'unexpected if: {ast.unparse(st)[:80]}')
-        elif isinstance(st, ast.Try):
-            cs = _calls(st, 'multi_part_create')
-            if not cs:
-                raise HarnessError('try block without multi_part_create')
-            nums = {ast.unparse(c.args[2]) for c in cs}
-            if len(nums) != 1:
-                raise HarnessError('multi_part_create called with different part counts')
-            out['create_num_parts'] = ev.e(cs[0].args[2])
-        elif isinstance(st, ast.AsyncWith):
-            for s2 in st.body:
-                if isinstance(s2, ast.AsyncFunctionDef):
-                    f_def = s2
-                elif isinstance(s2, ast.Expr):
-                    g = _calls(s2, 'bounded_gather2')
-                    comp = [c for c in ast.walk(s2) if isinstance(c, ast.ListComp)]
-                    if not g or len(comp) != 1:
-                        raise HarnessError('bounded_gather2 over a list comprehension expected')
-                    gen = comp[0].generators[0]
-                    if not (isinstance(gen.iter, ast.Call) and getattr(gen.iter.func, 'id', '') == 'range' and
-                            len(gen.iter.args) == 1 and not gen.ifs):
-                        raise HarnessError('parts are no longer enumerated by range(n_parts)')
-                    out['range_n'] = ev.e(gen.iter.args[0])
-                    if ast.unparse(comp[0].elt) != f'functools.partial(f, {gen.target.id})':
-                        raise HarnessError(f'unexpected part thunk {ast.unparse(comp[0].elt)}')
-        else:
-            raise HarnessError(f'unexpected statement {ast.unparse(st)[:80]}')
-    if single_guard is None or f_def is None or 'range_n' not in out or 'create_num_parts' not in out:
-        raise HarnessError('_copy_file_multi_part_main no longer has the expected shape')
-    out['multi'] = z3.Not(single_guard)
-    out['n_parts'] = ev.env['n_parts']
-    out['rem'] = ev.env['rem']
+    it = intpy.Interp(methods={'_copy_part': part}, input_calls={'size': size, 'copy_part_size': P},
+                      attr_symbols={'BUFFER_SIZE': BUF})
+    it.run(main, {a.arg: intpy.Opaque(a.arg) for a in main.args.args})
+    ev = it.events
+    if len([e for e in ev if e['kind'] == 'size']) != 1 or len([e for e in ev if e['kind'] == 'copy_part_size']) != 1:
+        raise HarnessError('the file size / part size are no longer read once via .size() / copy_part_size()')
 
-    # ---- nested f(i)
-    fenv = Ev({**ev.env, f_def.args.args[0].arg: i})
-    call_args = None
-    for st in f_def.body:
-        if isinstance(st, ast.Assign) and isinstance(st.targets[0], ast.Name):
-            fenv.env[st.targets[0].id] = fenv.e(st.value)
-            out['src']['this_part_size'] = ast.unparse(st)
-        elif isinstance(st, ast.Expr):
-            cs = _calls(st, 'retry_transient_errors')
-            if not cs or ast.unparse(cs[0].args[0]) != 'self._copy_part':
-                raise HarnessError('f(i) no longer calls _copy_part')
-            call_args = cs[0].args[1:]
-        else:
-            raise HarnessError(f'unexpected statement in f: {ast.unparse(st)}')
-    params = _params(part)
-    if call_args is None or len(call_args) != len(params):
-        raise HarnessError('_copy_part call does not match its signature')
-    penv = {}
-    for p, a in zip(params, call_args):
-        if p in ('part_size', 'part_number', 'this_part_size'):
-            penv[p] = fenv.e(a)
-    if set(penv) != {'part_size', 'part_number', 'this_part_size'}:
-        raise HarnessError('_copy_part parameters changed')
-    out['part_number'] = penv['part_number']
-    out['this_part_size'] = penv['this_part_size']
-    out['part_size_arg'] = penv['part_size']
+    # single-part branch: an early exit that hands the whole file to _copy_file
+    singles = [x for x in it.exits if x['kind'] == 'return' and any(e['kind'] == '_copy_file' for e in x['events'])]
+    if len(singles) != 1:
+        raise HarnessError('single-part branch (early return through _copy_file) not found')
+    cf = [e for e in singles[0]['events'] if e['kind'] == '_copy_file'][0]
+    out['single_guard'] = singles[0]['guard']
+    out['single_copy_size'] = _int_args(cf)
+    out['src']['single'] = cf['src']
 
-    # ---- _copy_part: create_part(...) and the read loop
-    pe = Ev(penv, {'Copier.BUFFER_SIZE': BUF})
-    cp = _calls(part, 'create_part')
-    if len(cp) != 1:
-        raise HarnessError('create_part call not found')
-    out['create_part_number'] = pe.e(cp[0].args[0])
-    out['create_part_start'] = pe.e(cp[0].args[1])
-    out['src']['create_part'] = ast.unparse(cp[0])
-    loops = [w for w in ast.walk(part) if isinstance(w, ast.While)]
-    if len(loops) != 1:
-        raise HarnessError('read loop not found')
-    loop = loops[0]
-    # the statement before the loop initialises the counter
-    init = None
-    for node in ast.walk(part):
-        body = getattr(node, 'body', None)
-        if isinstance(body, list) and loop in body:
-            k = body.index(loop)
-            init = body[k - 1] if k > 0 else None
-    if not (isinstance(init, ast.Assign) and isinstance(init.targets[0], ast.Name)):
-        raise HarnessError('loop counter initialisation not found')
-    counter = init.targets[0].id
-    out['loop_init'] = pe.e(init.value)
-    le = Ev({**penv, counter: n}, {'Copier.BUFFER_SIZE': BUF})
-    out['loop_guard'] = le.b(le.e(loop.test))
-    wrote = None
-    for st in loop.body:
-        if isinstance(st, ast.Assign) and isinstance(st.targets[0], ast.Name) and st.targets[0].id == 'bytes_to_write':
-            le.env['bytes_to_write'] = le.e(st.value)
-        elif isinstance(st, ast.AsyncWith):
-            of = _calls(st.items[0].context_expr, 'open_from')
-            if len(of) != 1:
-                raise HarnessError('open_from not found in the read loop')
-            out['read_offset'] = le.e(of[0].args[1])
-            kw = {k.arg: k.value for k in of[0].keywords}
-            out['read_length'] = le.e(kw['length'])
-            rx = _calls(st, 'readexactly')
-            if len(rx) != 1:
-                raise HarnessError('readexactly not found in the read loop')
-            out['readexactly_n'] = le.e(rx[0].args[0])
-            out['src']['open_from'] = ast.unparse(of[0])
-        elif isinstance(st, ast.AugAssign) and isinstance(st.target, ast.Name) and st.target.id == counter:
-            if not isinstance(st.op, ast.Sub):
-                raise HarnessError('loop counter update changed')
-            out['loop_next'] = n - le.e(st.value)
-        elif isinstance(st, ast.Assign) and ast.unparse(st.targets[0]) == 'written':
-            wrote = ast.unparse(st.value)
-        elif isinstance(st, (ast.If, ast.Assert, ast.Expr)):
-            continue
-        else:
-            raise HarnessError(f'unexpected statement in the read loop: {ast.unparse(st)}')
-    if wrote != 'await destf.write(b)' or 'loop_next' not in out or 'read_offset' not in out:
-        raise HarnessError('read loop no longer writes what it read')
+    # the loop over parts
+    ploops = [l for l in it.loops if l['kind'] == 'range' and any(e['kind'] == 'create_part' for e in l['events'])]
+    if len(ploops) != 1:
+        raise HarnessError(f'expected one range(n) loop over the parts, found {len(ploops)}')
+    pl = ploops[0]
+    i = pl['var']
+    out['multi'] = pl['guard']
+    out['range_n'] = pl['n']
+    mpcs = [e for e in ev if e['kind'] == 'multi_part_create']
+    if not mpcs or any(len(_int_args(e)) != 1 for e in mpcs):
+        raise HarnessError('multi_part_create(sema, url, n) calls not found')
+    out['create_num_parts'] = _int_args([e for e in mpcs if not e['handler']][0])[0]
+    out['create_num_parts_all'] = [_int_args(e)[0] for e in mpcs]
+    cp = _one(pl['events'], 'create_part', 'per-part code')
+    if len(cp['args']) < 2 or not all(isinstance(a, z3.ArithRef) for a in cp['args'][:2]):
+        raise HarnessError(f'create_part(number, start, …) with integer arguments expected: {cp["src"]}')
+    out['create_part_number'], out['create_part_start'] = cp['args'][0], cp['args'][1]
+    out['size_hint'] = cp['kwargs'].get('size_hint') if isinstance(cp['kwargs'].get('size_hint'), z3.ArithRef) else None
+    out['part_guard'] = cp['guard']
+    out['src']['create_part'] = cp['src']
+
+    # the read loop of a part
+    wl = [l for l in it.loops if l['kind'] == 'while' and any(e['kind'] == 'open_from' for e in l['events'])]
+    if len(wl) != 1 or len(wl[0]['state']) != 1:
+        raise HarnessError('expected one while loop with a single integer counter around open_from in the per-part code')
+    wl = wl[0]
+    cname, n = next(iter(wl['state'].items()))
+    out['loop_counter_name'] = cname
+    out['loop_init'] = wl['init'][cname]
+    out['loop_guard'] = wl['guard_term']
+    out['loop_next'] = wl['next'][cname]
+    of = _one(wl['events'], 'open_from', 'read loop')
+    rx = _one(wl['events'], 'readexactly', 'read loop')
+    wr = _one(wl['events'], 'write', 'read loop')
+    if len(of['args']) < 2 or not isinstance(of['args'][1], z3.ArithRef) or not isinstance(of['kwargs'].get('length'), z3.ArithRef):
+        raise HarnessError(f'open_from(url, offset, length=k) with integer offset and length expected: {of["src"]}')
+    out['read_offset'], out['read_length'] = of['args'][1], of['kwargs']['length']
+    if len(_int_args(rx)) != 1:
+        raise HarnessError(f'readexactly(k) expected: {rx["src"]}')
+    out['readexactly_n'] = _int_args(rx)[0]
+    w_arg = wr['args'][0] if wr['args'] else None
+    if not (isinstance(w_arg, intpy.Opaque) and w_arg.origin == 'readexactly'):
+        raise HarnessError(f'the read loop no longer writes exactly what readexactly returned: {wr["src"]}')
+    out['src']['open_from'] = of['src']
+    # the symbols every obligation is phrased over
+    out['vars'] = {'size': size, 'P': P, 'BUF': BUF, 'i': i, 'n': n}
+    out['side_conditions'] = list(it.side)
+    # candidates for "the size of part i": what the code itself passes around as a size
+    cands = []
+    for t in [out['size_hint'], out['loop_init']]:
+        if t is not None and not any(t.eq(c) for c in cands):
+            cands.append(t)
+    out['size_candidates'] = cands
 
     # ---- local multi part create
     mpc = _func(ltree, 'multi_part_create', 'LocalAsyncFS')
